@@ -282,6 +282,8 @@ PROFILE = {
     'disconnect_dead_sid_pct': 8,    # disconnect('') / (0) / (unknown id): not a cause for anybody
     'world_kw_st': st.fixed_dictionaries({
         'legacy_disconnect': st.sampled_from([False, False, True, 'varargs']),
+        # handlers that are not plain functions (functools.partial, instances with __call__)
+        'handler_style': st.sampled_from([None, None, None, 'partial', 'object']),
         # real timers fire late, never exactly on time: a quarter tick of lateness on every
         # timed wait (the exact virtual clock would otherwise sit on every '>' boundary)
         'timer_jitter': st.sampled_from([0.0, 0.0, 2.0 ** -12]),
